@@ -599,7 +599,8 @@ def run(ctx: Ctx) -> None:
     rep.rule("C19.R19", "the metadata is the commit marker: a marker that cannot be parsed (cut short by an interrupted put) means 'absent' - has_blob answers False and the blob is "
                         "written again - it never makes has_blob raise: every json.loads reachable from has_blob sits in a try whose handler answers")
     hbm = cls.methods["has_blob"]
-    reach19 = [hbm]
+    # (sync_paths too: a redirect record cut short must be written again by the next keep of the path, not make every later keep raise)
+    reach19 = [hbm, cls.methods["sync_paths"]]
     for _ in range(2):
         for g_ in list(reach19):
             for c_ in g_.own_nodes():
@@ -612,6 +613,13 @@ def run(ctx: Ctx) -> None:
     for g_ in reach19:
         for c_ in g_.own_nodes():
             if isinstance(c_, ast.Call) and unparse(c_.func) in ("json.loads", "loads", "json.load"):
+                if g_.name == "sync_paths":
+                    # in sync_paths: the parse of the REDIRECT record (the text read, under a tolerant try, from the redirection location); the marker of a blob
+                    # that is being committed was already parsed by has_blob
+                    a0_ = c_.args[0] if c_.args else None
+                    if not (isinstance(a0_, ast.Name) and any(isinstance(d_.stmt, ast.AST) and any(isinstance(t_, ast.Try) for t_ in ancestors(g_.module, d_.stmt))
+                                                              for d_ in flow_of(prog, g_).defs_of_use(a0_) if d_.stmt is not None)):
+                        continue
                 n19 += 1
                 prot = False
                 prev_ = c_
@@ -625,10 +633,10 @@ def run(ctx: Ctx) -> None:
                 if prot:
                     rep.ok("C19.R19", g_.qname, d19, g_.loc(c_))
                 else:
-                    rep.bad("C19.R19", g_.qname, d19, g_.loc(c_), [f"{g_.loc(c_)}: a marker that is empty or cut short raises JSONDecodeError out of has_blob",
+                    rep.bad("C19.R19", g_.qname, d19, g_.loc(c_), [f"{g_.loc(c_)}: a marker / record that is empty or cut short raises JSONDecodeError out of {g_.name}",
                             "every later keep of that result fails for good (also the evaluations that contain it); with the parse inside the try the store answers 'absent' and heals by recomputing"],
                             stmt_key(c_), what="a torn blob marker makes has_blob raise instead of answering False")
-    rep.floor("C19.R19", n19, 1)
+    rep.floor("C19.R19", n19, 2)
     rep.rule("C19.R15", "'full' leaves a copy of each kept result: sync_paths skips the copy of a path only when the commit type is not full, or when the redirect record "
                         "(a field other than the key) or the data directory vouches for the copy - the record alone is also written by links-only commits")
     n15 = full_copy_vouched(ctx, "C19.R15", ev, enum, full[0]) if full else 0
